@@ -32,6 +32,7 @@ type YOp struct {
 	At       int64   `json:"at_ns"`
 	Reads    []int64 `json:"clock_readings_ns,omitempty"`
 	Finished bool    `json:"finished,omitempty"`
+	Blocked  bool    `json:"blocked,omitempty"` // the call neither read the clock nor returned (given up on)
 	Early    bool    `json:"early,omitempty"`
 	RVid     int     `json:"r_vid,omitempty"`
 	RHdr     string  `json:"r_retry_after,omitempty"`
@@ -87,7 +88,7 @@ func yHeaders(o *YOp) map[string]string {
 
 // finished: record what the call did.
 func (r *tconcRun) afterFinish(o *YOp, begin int, pc *pcall) {
-	o.Unexpect = pc.unexpect
+	o.Unexpect, o.Blocked = pc.unexpect, pc.blocked
 	if r.isReq[begin] {
 		switch a := pc.act.(type) {
 		case *actions.NoOpAction:
@@ -121,7 +122,8 @@ func (r *tconcRun) afterFinish(o *YOp, begin int, pc *pcall) {
 		vid = r.k.Ops[begin].Vid
 	}
 	if cache := r.plugin.VerifC12Cache(); cache != nil {
-		_, vals, _, _ := cache.VerifC12Snapshot()
+		var vals []remedies.CachedResponse
+		r.w.bounded(func() { _, vals, _, _ = cache.VerifC12Snapshot() })
 		for _, v := range vals {
 			if v.ID == respID(vid) {
 				o.Stored = true
@@ -202,8 +204,11 @@ func (r *tconcRun) do(o YOp) {
 	default:
 		panic("unknown op " + o.Kind)
 	}
-	keys, _, _, _ := r.plugin.VerifC12Cache().VerifC12Snapshot()
-	o.Held = len(keys)
+	o.Held = -1 // unless the state can be read (a stopped call might hold the cache lock)
+	r.w.bounded(func() {
+		keys, _, _, _ := r.plugin.VerifC12Cache().VerifC12Snapshot()
+		o.Held = len(keys)
+	})
 	o.InFlight = r.inFlight()
 	r.k.Ops = append(r.k.Ops, o)
 }
@@ -405,8 +410,10 @@ func tconcMonitor(k *TConcCase) []c.Hit {
 		}
 		s := &k.Ops[src]
 		srcStart, srcEnd := s.At, reqStart
+		srcBlocked := false
 		if sf, ok := fin[src]; ok && sf < i {
 			srcEnd = k.Ops[sf].At
+			srcBlocked = k.Ops[sf].Blocked // the harness gave up on the storing call: its end is unknown
 		}
 		switch {
 		case s.Method != o.Method || s.URL != o.URL:
@@ -414,6 +421,7 @@ func tconcMonitor(k *TConcCase) []c.Hit {
 		case s.HdrKind != "ok" || (k.Conf.Type != "relative_seconds" && k.Conf.Type != "absolute_epoch"):
 			add("no-retry-after-replayed:tconc", fmt.Sprintf("op %d: replay only until the provider's retry-after time", i),
 				"the replayed response carried no usable retry-after time")
+		case k.Conf.Type == "relative_seconds" && srcBlocked:
 		case k.Conf.Type == "relative_seconds":
 			ra := s.RAg * G
 			if reqStart > srcEnd+ra {
@@ -704,5 +712,68 @@ func genTConcSchedules(o *c.Out, rng *c.Rng, t0 int64) {
 			adv[j] = c.Pick(rng, []int64{0, 0, 1, 1, 2})
 		}
 		run(ty, calls, ord, adv)
+	}
+}
+
+// genTConcExpiryRace: an entry just past the end of its retry-after period
+// whose sleeper has not run; 2-3 OnRequest calls are stopped inside Get's
+// clock reading (after the map read); the sleeper's clearKey and a new
+// OnResponse for the same key land before they go on; afterwards the key and
+// a neighbouring key are probed: the new entry must still be there (the
+// stopped look-ups hold the OLD entry; at HEAD they write nothing).
+func genTConcExpiryRace(o *c.Out, t0 int64) {
+	for _, ty := range []string{"relative_seconds", "absolute_epoch"} {
+		abs := ty == "absolute_epoch"
+		for nreq := 2; nreq <= 3; nreq++ {
+			for fire := 0; fire < 3; fire++ { // sleeper: before the new store / after it / after the look-ups went on
+				if !o.Thorough() && (nreq+fire)%2 == 1 && abs {
+					continue
+				}
+				cf := ThrottleConf{Type: ty, Statuses: []int{429}}
+				r := newTConcRun(cf, t0)
+				rag := int64(4)
+				if abs {
+					rag += r.now() / G
+				}
+				first := r.response("GET", "a.com/x", 601, 429, "ok", rag, nil)
+				r.request("GET", "a.com/x", 0)
+				r.do(YOp{Kind: "adv", D: 4*G + 1}) // 1 ns past the expiry
+				var reqs []int
+				for i := 0; i < nreq; i++ {
+					r.do(YOp{Kind: "breq", Method: "GET", URL: "a.com/x"})
+					reqs = append(reqs, len(r.k.Ops)-1)
+				}
+				fireIt := func() {
+					if _, ok := r.sleeper[first]; ok {
+						r.do(YOp{Kind: "fire", Call: first})
+					}
+				}
+				if fire == 0 {
+					fireIt()
+				}
+				rag2 := int64(6)
+				if abs {
+					rag2 += (r.now() + G - 1) / G
+				}
+				r.response("GET", "a.com/x", 602, 429, "ok", rag2, nil)
+				if fire == 1 {
+					fireIt()
+				}
+				for _, id := range reqs {
+					for !r.calls[id].finished {
+						r.do(YOp{Kind: "step", Call: id})
+					}
+					r.request("GET", "a.com/x", 0)
+				}
+				if fire == 2 {
+					fireIt()
+				}
+				r.request("GET", "a.com/x", 0)
+				r.request("GET", "a.com/y", 0)
+				r.finish()
+				o.Count("tconc.expiry_race_cases")
+				tconcRecord(o, r.k)
+			}
+		}
 	}
 }
